@@ -260,12 +260,12 @@ def check_scenario(sc, sym: bool, excl=()) -> Obligation:
             ann = build(sc, V)
             kw = call_kwargs(sc)
             try:
-                m = mass(ann.copy(), monoisotopic=sc["mono"], use_isotope_on_mods=sc["on_mods"], **kw)
+                m = mass(ann, monoisotopic=sc["mono"], use_isotope_on_mods=sc["on_mods"], **kw)
             except ValueError as e:
                 fn.note = f"mass raised {type(e).__name__}"
                 m = None
             try:
-                c, delta = comp_mass(ann.copy(), use_isotope_on_mods=sc["on_mods"], **kw)
+                c, delta = comp_mass(ann, use_isotope_on_mods=sc["on_mods"], **kw)
                 via = chem_mass(c, monoisotopic=sc["mono"]) + delta
             except ValueError as e:
                 fn.note = f"comp_mass raised {type(e).__name__}"
@@ -329,8 +329,8 @@ def check_estimate(sc) -> Obligation:
         with element_tables(sc, False):
             ann = build(sc, V)
             kw = call_kwargs(sc)
-            m = mass(ann.copy(), monoisotopic=True, **kw)
-            c = comp(ann.copy(), estimate_delta=True, **kw)
+            m = mass(ann, monoisotopic=True, use_isotope_on_mods=sc["on_mods"], **kw)
+            c = comp(ann, estimate_delta=True, use_isotope_on_mods=sc["on_mods"], **kw)
             via = chem_mass(c, monoisotopic=True)
         return SR.close(m, via, 1e-4)
 
@@ -346,8 +346,8 @@ def main(p):
     sc, model = p["sc"], p["model"]
     ann = c03.build(sc, lambda name: float(model.get(name, 0.0)))
     kw = c03.call_kwargs(sc)
-    m = pt.mass(ann.copy(), monoisotopic=True, **kw)
-    via = chem_mass(comp(ann.copy(), estimate_delta=True, **kw), monoisotopic=True)
+    m = pt.mass(ann, monoisotopic=True, use_isotope_on_mods=sc["on_mods"], **kw)
+    via = chem_mass(comp(ann, estimate_delta=True, use_isotope_on_mods=sc["on_mods"], **kw), monoisotopic=True)
     return {"violated": abs(m - via) > 1e-4, "detail": f"{ann.serialize()!r} {kw}: mass()={m!r}, mass of comp(estimate_delta=True)={via!r}"}
 '''
         res = native_call(code, {"sc": sc, "model": model})
@@ -377,11 +377,11 @@ def main(p):
     kw = c03.call_kwargs(sc)
     m = via = None; em = ev = ""
     try:
-        m = pt.mass(ann.copy(), monoisotopic=sc["mono"], use_isotope_on_mods=sc["on_mods"], **kw)
+        m = pt.mass(ann, monoisotopic=sc["mono"], use_isotope_on_mods=sc["on_mods"], **kw)
     except ValueError as e:
         em = type(e).__name__
     try:
-        c, delta = comp_mass(ann.copy(), use_isotope_on_mods=sc["on_mods"], **kw)
+        c, delta = comp_mass(ann, use_isotope_on_mods=sc["on_mods"], **kw)
         via = chem_mass(c, monoisotopic=sc["mono"]) + delta
     except ValueError as e:
         ev = type(e).__name__
@@ -449,7 +449,9 @@ def _work(args):
             excl = excl + (ob.finding,)
             continue
         break
-    if n_values(sc) and sc["mono"] and not sc["labels"] and not (sc["adducts"] and any(c in sc["adducts"] for c in "23-")):
+    # with a global label AND use_isotope_on_mods=True the library labels the averagine estimate on purpose (it warns about it), so
+    # the estimate is then heavier than mass() by design: the clause is decided for the default (label not applied to the estimate)
+    if n_values(sc) and sc["mono"] and not (sc["labels"] and sc["on_mods"]) and not (sc["adducts"] and any(c in sc["adducts"] for c in "23-")):
         out.append(check_estimate(sc))
     return out
 
